@@ -9,6 +9,7 @@ import (
 	"strings"
 	"testing"
 	"time"
+	"unicode"
 	"unicode/utf8"
 
 	"golang.org/x/perf/benchfmt"
@@ -79,6 +80,20 @@ func render(s, form string) (string, bool) {
 		return s, true
 	}
 	return "", false
+}
+
+// streamable reports whether s can be written as a configuration value in a benchmark file and
+// read back unchanged (printable, no surrounding blanks).
+func streamable(s string) bool {
+	if s == "" || !utf8.ValidString(s) || strings.TrimSpace(s) != s {
+		return false
+	}
+	for _, r := range s {
+		if r < 0x20 || r == 0x7f || (r >= 0x80 && unicode.IsSpace(r)) || r == 0x85 {
+			return false
+		}
+	}
+	return true
 }
 
 func specials(s string) bool {
@@ -174,6 +189,50 @@ func CheckWord(c WordCase) (v vcase.Verdict) {
 			if got := proj.Project(res).Get(proj.Fields()[0]); got != s {
 				v.Failf("projection k extracted %q, want %q", got, s)
 				return
+			}
+			// the same list applied to a stream from one Reader (which recycles its result and
+			// value buffers) in which k alternates between the word and a same-length neighbour
+			if streamable(s) {
+				alt := s[:len(s)-1] + string(rune(s[len(s)-1])^1)
+				if !streamable(alt) || alt == s {
+					alt = ""
+				}
+				if alt != "" {
+					var sb strings.Builder
+					want := []bool{true, false, true, false, false, true}
+					for _, w := range want {
+						val := alt
+						if w {
+							val = s
+						}
+						sb.WriteString("k: " + val + "\nBenchmarkN 1 1 u\n")
+					}
+					lit, _ := benchproc.NewFilter("k:" + strconv.Quote(s))
+					rd := benchfmt.NewReader(strings.NewReader(sb.String()), "stream")
+					i := 0
+					for rd.Scan() {
+						r, ok := rd.Result().(*benchfmt.Result)
+						if !ok {
+							continue
+						}
+						if i >= len(want) {
+							break
+						}
+						if got := string(r.GetConfig("k")); got != map[bool]string{true: s, false: alt}[want[i]] {
+							break // the value does not survive the file format unchanged: not this check's subject
+						}
+						m1, _ := ff.Match(r)
+						m2, _ := lit.Match(r)
+						if m1.All() != want[i] || m2.All() != want[i] {
+							v.Failf("stream of results from one Reader, k alternating between %q and %q: result %d (k=%q): fixed list %q keeps=%v, filter k:%s keeps=%v, want %v", s, alt, i, r.GetConfig("k"), "k@("+w+")", m1.All(), strconv.Quote(s), m2.All(), want[i])
+							return
+						}
+						i++
+					}
+					if i == len(want) {
+						v.Label("fixed_list_over_reader_stream")
+					}
+				}
 			}
 		}
 	}
